@@ -463,21 +463,25 @@ Definition sc_neg (a : val) : res :=
 Definition m_negate (a : val) : res := vec1 (S (depth a)) (leaf1 sc_neg) a.
 
 (* floor_to_int on one number: an integer when the floored value is inside the int64 range, otherwise the floored real *)
-Definition floor_fits (v : val) : bool :=
+(* the guard `np.abs(result) < 2.0**63`; strict = false models `<=` (the real 2^63 passes and astype(int) wraps it) *)
+Definition in_guard (strict : bool) (z : Z) : bool := if strict then Z.abs z <? two63 else Z.abs z <=? two63.
+Definition floor_fits_gen (strict : bool) (v : val) : bool :=
   match v with
   | VI _ => true
-  | VR r => match rfloor_exact r with Some z => (- two63 <=? z) && (z <? two63) | None => false end
+  | VR r => match rfloor_exact r with Some z => in_guard strict z | None => false end
   | _ => false
   end.
-Definition sc_floor (a : val) : res :=
+Definition sc_floor_gen (strict : bool) (a : val) : res :=
   match a with
   | VI x => Ok (VI x)
   | VR r => match rfloor_exact r with
-            | Some z => if (- two63 <=? z) && (z <? two63) then Ok (VI z) else Ok (VR r)
+            | Some z => if in_guard strict z then Ok (VI (clip64 z)) else Ok (VR r)
             | None => Ok (VR r)
             end
   | _ => Unmod
   end.
+Definition floor_fits := floor_fits_gen floor_guard_strictly_below_2_63.
+Definition sc_floor := sc_floor_gen floor_guard_strictly_below_2_63.
 Fixpoint forall_leaves (p : val -> bool) (a : val) : bool :=
   match a with VL l => forallb (forall_leaves p) l | _ => p a end.
 (* on a numeric array the test `np.all(abs(result) < 2**63)` is taken once for the whole array: one element beyond
@@ -1346,6 +1350,21 @@ Definition m_amend_in_depth (a b : val) : res :=
       | None => Unmod
       end
   | _, _ => Unmod
+  end.
+
+(* ------------------------------------------------------------------ a verb applied repeatedly to a shared operand object
+   nowrite = the translator found no store into a parameter in any eval_* function: the operand object is the same
+   value at every use.  With nowrite = false nothing is known about the second and later uses. *)
+Definition apply_shared (nowrite : bool) (verb : val -> val -> res) (s : option val) (b : val) : res * option val :=
+  match s with
+  | Some a => (verb a b, if nowrite then Some a else None)
+  | None => (Unmod, None)
+  end.
+Fixpoint run_shared (nowrite : bool) (verb : val -> val -> res) (s : option val) (bs : list val) : list res * option val :=
+  match bs with
+  | [] => ([], s)
+  | b :: r => let (x, s1) := apply_shared nowrite verb s b in
+              let (xs, s2) := run_shared nowrite verb s1 r in (x :: xs, s2)
   end.
 
 (* ------------------------------------------------------------------ dispatch by Python function name *)
